@@ -69,12 +69,12 @@ const (
 	OFpIsInf
 	OFpIsZero
 	OFpIsNeg
-	OFpTrunc  // roundToIntegral RTZ
-	OFpToSbv  // RTZ, W = target width (argument must be in range)
-	OFpToUbv  // RTZ
-	OSbvToFp  // RNE
-	OUbvToFp  // RNE
-	OFpToFp   // RNE, W = target
+	OFpTrunc // roundToIntegral RTZ
+	OFpToSbv // RTZ, W = target width (argument must be in range)
+	OFpToUbv // RTZ
+	OSbvToFp // RNE
+	OUbvToFp // RNE
+	OFpToFp  // RNE, W = target
 )
 
 var opName = map[Op]string{
@@ -94,9 +94,9 @@ type Term struct {
 	W    int // bv width / fp width (32|64); 0 for Bool
 	A    []*Term
 	C    uint64
-	Name string   // OVar
-	FD   *fdTab   // finite-domain value: decision table over selector terms (see below)
-	id   int32    // printing scratch
+	Name string // OVar
+	FD   *fdTab // finite-domain value: decision table over selector terms (see below)
+	id   int32  // printing scratch
 }
 
 func (t *Term) conc() bool { return t.Op == OConst }
